@@ -60,7 +60,10 @@ META = {
             "VBK tree - as inputs; compared: connected ATVs/VTBs and the three in-flight views in view order). Not "
             "compared: connected VBK blocks (relation emptiness rules), VTB sets in steps where a VTB lacks BTC context; "
             "a history is dropped from the comparison once a connected payload's block is in neither tree (reorg "
-            "after the temporary copy was cleaned up). Memory safety is observed, not proved.",
+            "after the temporary copy was cleaned up). Memory safety is observed, not proved. A sample of 300 cases per "
+            "run (120 vsm sequences + every step of whole pool histories) is re-evaluated inside Coq by vm_compute and "
+            "compared with the extracted model's output, so extraction is cross-checked, not trusted blindly "
+            "(props/_mpxcheck.py, props/_xcheck.py).",
     "technique": "Coq proof (invariants over op sequences) + extraction-based differential correspondence (exhaustive) "
                  "+ direct oracle on generated histories under ASan/UBSan",
 }
@@ -273,6 +276,9 @@ def run(ctx):
             ctx.cov["pool_model"] = pc
             ctx.cov["disagreements_checked"] = ctx.cov.get("disagreements_checked", 0) + pc["steps"]
             ctx.cov["traces_validated_against_impl"] = ctx.cov.get("traces_validated_against_impl", 0) + pc["agree"]
+    # extraction cross-check: sampled vsm cases and whole pool histories re-evaluated inside Coq (props/_mpxcheck.py)
+    from props import _mpxcheck
+    _mpxcheck.run(ctx)
     tot["sanitizer_histories"] = done
     tot["sanitizer_lines"] = alines
     ctx.cov["evaluations"] = ctx.cov.get("evaluations", 0) + tot["lines"] + alines + nc
